@@ -1806,3 +1806,17 @@ M("sh5", "neutral", [], "a local copy of RELEASE_TYPES is extended, the table it
 
 
 def is_valid_release_type(release_type):'''))
+
+# ============================================================ readers visit every entry (automatic-mutant candidates) ===
+M("rc1", "fire", ["C01", "C05"], "legacy top-level scan of composeinfo variants stops at the first child instead of skipping it",
+  (CI, '''                    if head in all_variants:
+                        # has parent, skip it
+                        continue''', '''                    if head in all_variants:
+                        # has parent, skip it
+                        break'''))
+M("rc2", "fire", ["C03", "C05"], "0.3 rpm manifest reader stops at the src arch instead of skipping it",
+  (RP, '''                if arch == "src":
+                    continue
+                for srpm_nevra, rpms in payload[variant][arch].items():''', '''                if arch == "src":
+                    break
+                for srpm_nevra, rpms in payload[variant][arch].items():'''))
